@@ -29,6 +29,9 @@ EVENTS = {
     "shutil.chown": ((0,), (), None), "shutil.make_archive": ((0,), (2,), None), "shutil.unpack_archive": ((1,), (0,), None),
     "tempfile.mkstemp": ((0,), (), None), "tempfile.mkdtemp": ((0,), (), None),
 }
+# events that act on the directory ENTRY named by the path (they never follow a symbolic link in the last component):
+# removing / renaming / creating a link that lives inside the temporary directory is not an access to the link's target
+NOFOLLOW = {"os.remove", "os.rmdir", "os.rename", "os.symlink", "os.link", "os.mkdir", "os.mkfifo", "os.mknod", "shutil.rmtree"}
 WATCHED_DOC = sorted(EVENTS) + ["open (read-only -> R, any write/create/truncate/append mode or flag -> W)"]
 _WRITE_FLAGS = os.O_WRONLY | os.O_RDWR | os.O_CREAT | os.O_TRUNC | os.O_APPEND
 
@@ -42,8 +45,9 @@ def _fd_path(fd):
         return f"<fd {fd}>"
 
 
-def _resolve(p, dir_fd=None, frame_depth=2):
-    """-> (text of the argument, real absolute path) at the time of the event"""
+def _resolve(p, dir_fd=None, frame_depth=2, nofollow=False):
+    """-> (text of the argument, real absolute path) at the time of the event; nofollow: resolve the parent directory
+    only (the event acts on the entry itself, see NOFOLLOW)"""
     if isinstance(p, int):
         real = _fd_path(p)
         return f"<fd:{real}>", real
@@ -75,7 +79,12 @@ def _resolve(p, dir_fd=None, frame_depth=2):
     else:
         full = s
     try:
-        real = os.path.realpath(full)
+        if nofollow:
+            head, tail = os.path.split(full.rstrip("/") or "/")
+            # the kernel resolves every component but the last; "." / ".." as last component name a directory, not a link
+            real = os.path.join(os.path.realpath(head), tail) if tail not in ("", ".", "..") else os.path.realpath(full)
+        else:
+            real = os.path.realpath(full)
     except Exception:
         real = os.path.abspath(full)
     return s, real
@@ -123,7 +132,7 @@ def _hook(event, args):
                 if i < len(args) and args[i] is not None:
                     if event == "tempfile.mkstemp" and i == 0 and not isinstance(args[0], (str, bytes)):
                         continue
-                    txt, real = _resolve(args[i], dfd)
+                    txt, real = _resolve(args[i], dfd, nofollow=event in NOFOLLOW and kind == "W")
                     if event == "os.mkdir" and os.path.lexists(real):
                         # mkdir of an existing path fails with EEXIST and creates nothing (os.makedirs(exist_ok=True) probes)
                         ev.append(("os.mkdir[exists]", "N", txt, real, _caller(), True))
